@@ -52,6 +52,13 @@ pub fn table() -> Vec<(&'static str, String, Want)> {
         ("constant-integer-division-truncates", m("    var a float64 = 7 / 2\n    p(fmt.Sprintf(\"%v\", a))\n"), Want::Ok("3\n")),
         ("comparing-slices", m("    var a []int32 = nil\n    var b []int32 = nil\n    if a == b {\n        p(\"eq\")\n    }\n"), Want::Reject("operand")),
         ("comparing-structs-is-legal", with("type T struct {\n    a int32\n}\n", "    var x T = T{a: 1}\n    var y T = T{a: 1}\n    if x == y {\n        p(\"eq\")\n    }\n"), Want::Ok("eq\n")),
+        // spec, Comparison operators: "A comparison of two interface values with identical dynamic types
+        // causes a run-time panic if that type is not comparable"; struct values are comparable iff all
+        // their field types are
+        ("comparing-structs-with-a-slice-field", with("type T struct {\n    a []int32\n}\n", "    var x T = T{a: nil}\n    var y T = T{a: nil}\n    if x == y {\n        p(\"eq\")\n    }\n"), Want::Reject("operand")),
+        ("comparing-interfaces-holding-an-uncomparable-struct-panics", with("type E interface {\n    isE()\n}\n\ntype A struct {\n    _0 []int32\n}\n\nfunc (_ A) isE() {}\n", "    var x E = A{_0: nil}\n    var y E = A{_0: nil}\n    p(\"before\")\n    if x == y {\n        p(\"eq\")\n    }\n"), Want::Panics("before\n")),
+        ("comparing-interfaces-of-different-dynamic-types-is-false", with("type E interface {\n    isE()\n}\n\ntype A struct {\n    _0 []int32\n}\n\nfunc (_ A) isE() {}\n\ntype B struct {}\n\nfunc (_ B) isE() {}\n", "    var x E = A{_0: nil}\n    var y E = B{}\n    if x == y {\n        p(\"eq\")\n    } else {\n        p(\"ne\")\n    }\n"), Want::Ok("ne\n")),
+        ("comparing-interfaces-holding-comparable-structs", with("type E interface {\n    isE()\n}\n\ntype A struct {\n    _0 int32\n}\n\nfunc (_ A) isE() {}\n", "    var x E = A{_0: 1}\n    var y E = A{_0: 1}\n    var z E = A{_0: 2}\n    if x == y {\n        p(\"eq\")\n    }\n    if x == z {\n        p(\"eq2\")\n    }\n"), Want::Ok("eq\n")),
         ("comparing-funcs", with("func f() int32 {\n    return 1\n}\n", "    if f == f {\n        p(\"eq\")\n    }\n"), Want::Reject("operand")),
         // --- calls and returns (spec: Calls; Return statements; Terminating statements)
         ("too-many-arguments", with("func f(a int32) int32 {\n    return a\n}\n", "    p(i2s(f(1, 2)))\n"), Want::Reject("call")),
